@@ -68,6 +68,12 @@ struct SimpleStringBuffer
     bool reachedItsCapacity();
 private:
     char buffer_[SIMPLE_STRING_BUFFER_LEN];
+#ifdef CPPUTEST_VERIF_HOOKS
+    unsigned char verifCanary_[16];
+public:
+    bool verifCanaryIntact() const;
+private:
+#endif
     size_t positions_filled_;
     size_t write_limit_;
 };
